@@ -4,6 +4,9 @@ var ndHarnesses = map[string]func(){
 	"Harness_C05_L1": Harness_C05_L1,
 	"Harness_C05_L2": Harness_C05_L2,
 	"Harness_C06":    Harness_C06,
+	"Harness_C15_FuncKeys": Harness_C15_FuncKeys,
+	"Harness_C15_VarKeys": Harness_C15_VarKeys,
+	"Harness_C15_Stable": Harness_C15_Stable,
 	"Harness_C04_K2": Harness_C04_K2,
 	"Harness_C04_K3": Harness_C04_K3,
 	"Harness_C04_K4": Harness_C04_K4,
